@@ -220,10 +220,14 @@ static struct cstl_hash T;
 static int bad_on, bad_scope;           /* scope 0: every key, 1: only bad_key */
 static size_t bad_key, bad_delta;       /* returns m + delta (delta == SIZE_MAX: returns SIZE_MAX) */
 static int bad_returned;
+#define BAD_HI32 ((size_t)-2)   /* 2^32 + an in-range value: survives only if the result is narrowed to 32 bits */
+#define BAD_HI63 ((size_t)-3)   /* 2^63 + an in-range value: survives only if the result is treated as signed / narrowed */
 static size_t badf(size_t k, size_t m)
 {
     if (bad_on && (bad_scope == 0 || k == bad_key)) {
         bad_returned++;
+        if (bad_delta == BAD_HI32) return ((size_t)1 << 32) + k % m;
+        if (bad_delta == BAD_HI63) return ((size_t)1 << 63) + k % m;
         return bad_delta == SIZE_MAX ? SIZE_MAX : m + bad_delta;
     }
     return k % m;
@@ -239,12 +243,12 @@ static const char *sname[] = { "idle", "pending-bad-is-current", "pending-bad-is
 struct cell { int entry, state, ret, scope, grow, n; };
 #define NCELL_N 4
 static const int cell_n[NCELL_N] = { 1, 2, 4, 7 };
-static uint64_t ncells(void) { return 3 * 3 * 3 * 3 * 2 * NCELL_N; }
+static uint64_t ncells(void) { return 3 * 3 * 5 * 3 * 2 * NCELL_N; }
 static void decode_cell(uint64_t i, struct cell *c)
 {
     c->entry = i % 3; i /= 3;
     c->state = i % 3; i /= 3;
-    c->ret = i % 3; i /= 3;
+    c->ret = i % 5; i /= 5;
     c->scope = i % 3; i /= 3;          /* 0 all keys, 1 the call's key, 2 another element's key */
     c->grow = i % 2; i /= 2;
     c->n = cell_n[i % NCELL_N];
@@ -259,7 +263,7 @@ static void run_cell(uint64_t idx)
     decode_cell(idx, &c);
     n2 = c.grow ? (size_t)c.n + 3 : (c.n > 1 ? (size_t)c.n - 1 : 2);
     vrt_case_note("B cell: %s, %s, bad value %s, bad for %s, n=%d -> %zu",
-                  ename[c.entry], sname[c.state], c.ret == 0 ? "m" : c.ret == 1 ? "m+1" : "SIZE_MAX",
+                  ename[c.entry], sname[c.state], c.ret == 0 ? "m" : c.ret == 1 ? "m+1" : c.ret == 2 ? "SIZE_MAX" : c.ret == 3 ? "2^32+in-range" : "2^63+in-range",
                   c.scope == 0 ? "every key" : c.scope == 1 ? "the call's key" : "another element's key", c.n, n2);
     for (i = 0; i < NE; i++) {
         el[i] = vrt_alloc(sizeof(*el[i]));
@@ -267,7 +271,7 @@ static void run_cell(uint64_t idx)
         el[i]->magic = 0xe1e1; el[i]->id = i; el[i]->node.key = i; el[i]->node.next = NULL;
     }
     bad_on = 0; bad_returned = 0;
-    bad_delta = c.ret == 0 ? 0 : c.ret == 1 ? 1 : SIZE_MAX;
+    bad_delta = c.ret == 0 ? 0 : c.ret == 1 ? 1 : c.ret == 2 ? SIZE_MAX : c.ret == 3 ? BAD_HI32 : BAD_HI63;
     cstl_hash_init(&T, offsetof(struct elem, node));
     VRT_OP1("hash.resize", "n=%ld (first)", c.n);
     cstl_hash_resize(&T, c.n, c.state == S_PENDING_BAD_PENDING ? goodf : badf);
